@@ -271,3 +271,81 @@ func (m *Model) tableRows(g *ssa.Global) (rows [][]string, ok bool) {
 	}
 	return rows, true
 }
+
+
+// globalStructString: the constant string that the initialiser of package-level struct variable
+// g gives to field number `field`, provided the variable is only ever read field by field.
+func (m *Model) globalStructString(g *ssa.Global, field int) (string, bool) {
+	obj := g.Object()
+	if obj == nil {
+		return "", false
+	}
+	st, ok := obj.Type().Underlying().(*types.Struct)
+	if !ok || field >= st.NumFields() {
+		return "", false
+	}
+	var lit *ast.CompositeLit
+	for _, f := range m.Pkg.Syntax {
+		for _, d := range f.Decls {
+			gd, isGd := d.(*ast.GenDecl)
+			if !isGd || gd.Tok != token.VAR {
+				continue
+			}
+			for _, sp := range gd.Specs {
+				vs := sp.(*ast.ValueSpec)
+				for i, nm := range vs.Names {
+					if m.Pkg.TypesInfo.Defs[nm] == obj && i < len(vs.Values) && len(vs.Values) == len(vs.Names) {
+						lit, _ = ast.Unparen(vs.Values[i]).(*ast.CompositeLit)
+					}
+				}
+			}
+		}
+	}
+	if lit == nil {
+		return "", false
+	}
+	var val ast.Expr
+	for i, el := range lit.Elts {
+		if kv, isKv := el.(*ast.KeyValueExpr); isKv {
+			if id, isId := kv.Key.(*ast.Ident); isId && id.Name == st.Field(field).Name() {
+				val = kv.Value
+			}
+		} else if i == field {
+			val = el
+		}
+	}
+	if val == nil {
+		return "", false
+	}
+	tv, has := m.Pkg.TypesInfo.Types[val]
+	if !has || tv.Value == nil || tv.Value.Kind() != constant.String {
+		return "", false
+	}
+	// only ever read field by field
+	for _, fn := range m.Funcs {
+		if fn.Synthetic != "" && fn.Name() == "init" {
+			continue
+		}
+		for _, b := range fn.Blocks {
+			for _, ins := range b.Instrs {
+				for _, op := range ins.Operands(nil) {
+					if *op != ssa.Value(g) {
+						continue
+					}
+					fa, isFA := ins.(*ssa.FieldAddr)
+					if !isFA || fa.Referrers() == nil {
+						return "", false
+					}
+					for _, ref := range *fa.Referrers() {
+						if ld, isLd := ref.(*ssa.UnOp); !isLd || ld.Op != token.MUL {
+							if _, isDbg := ref.(*ssa.DebugRef); !isDbg {
+								return "", false
+							}
+						}
+					}
+				}
+			}
+		}
+	}
+	return constant.StringVal(tv.Value), true
+}
